@@ -39,7 +39,7 @@ with concurrent.futures.ThreadPoolExecutor(max_workers=5) as ex:
         byprop = {}
         for (rule, key), o in new.items():
             props = rules.get(rule) or (list(rules_all) if False else [])
-            if rule == "ENGINE" or key == "floor":
+            if rule == "ENGINE":
                 props = ["*"]
             for p in props:
                 byprop.setdefault(p, set()).add(rule)
